@@ -159,9 +159,11 @@ class BufferRoles:
         self.drain = None
         for f in self.methods.values():
             gg = build(f, p)
-            if any(is_meth(gg, n, self.Q, 'get_nowait') for n in gg.nodes):
+            if f.is_generator and any(is_meth(gg, n, self.Q, 'get_nowait') for n in gg.nodes):
                 self.drain = f
         self.drain_calls = [n for n in G.nodes if n.kind == 'call' and self.drain is not None and self_attr(n.ast.func) == self.drain.name]
+        # non-blocking dequeues written inline in the daemon (no separate drain generator)
+        self.nowait_gets = [n for n in G.nodes if is_meth(G, n, self.Q, 'get_nowait')]
         self.wait = self.methods.get('wait')
         self.wait_anywhere = self.methods.get('wait_from_anywhere')
         self.entry_points = [self.methods[m] for m in ('__call__', 'await_', 'map', 'amap') if m in self.methods]
@@ -345,6 +347,14 @@ def c03(ctx: Ctx) -> None:
         ctx.check('C03-S4', f'timed get -> {norm(parent(par) if par is not None and parent(par) is not None else tg.ast)[:70]}', G.loc(tg), ok,
                   'awaited inline through the loader', 'the producer delivered by the timed read is not loaded',
                   construct=construct_key('BUFFER.daemon', 'timed get not loaded'))
+    for ng in r.nowait_gets:
+        par = parent(ng.ast)
+        ok = _is_load_call(r, par)
+        if not ok and isinstance(par, (ast.Assign, ast.AnnAssign)):
+            tgt = par.targets[0] if isinstance(par, ast.Assign) else par.target
+            ok = isinstance(tgt, ast.Name) and flows_to_loader(tgt.id, False)
+        ctx.check('C03-S4', f'non-blocking get -> {norm(par)[:60]}', G.loc(ng), ok, 'drained producer wrapped by the loader',
+                  'a drained producer is not handed to the loader', construct=construct_key('BUFFER.daemon', 'nowait get not loaded'))
     for d in r.drain_calls:
         par = parent(d.ast)
         ok = isinstance(par, ast.Call) and G.res.path(par.func) == 'builtins.map' and isinstance(par.args[0], ast.Name) \
@@ -607,10 +617,11 @@ def c07(ctx: Ctx) -> None:
                       construct=construct_key('BUFFER.daemon', 'no first get'))
     for d in [d for d in r.done if r.round_loop in d.loops]:
         ctx.holds('C07-W2', f'{norm(d.ast)} inside the round loop (entered only while the flag is cleared)', G.loc(d))
-    if r.drain is not None:
-        okd = all(r.round_loop in n.loops for n in r.drain_calls)
-        ctx.check('C07-W2', 'the drain generator runs only inside the round loop', f'{FILE}:{r.drain.lineno}', okd and bool(r.drain_calls),
-                  'its task_done calls happen under a cleared flag', 'producers are drained outside the round loop',
+    drains = r.drain_calls + r.nowait_gets
+    if drains:
+        okd = all(r.round_loop in n.loops for n in drains)
+        ctx.check('C07-W2', 'queued producers are drained only inside the round loop', G.loc(drains[0]), okd,
+                  'their task_done calls happen under a cleared flag', 'producers are drained outside the round loop',
                   construct=construct_key('BUFFER.daemon', 'drain outside round'))
     # W3
     def pair_rule(gg: CFG, gets: List[Node], dones: List[Node], label: str, key: str) -> None:
@@ -630,7 +641,7 @@ def c07(ctx: Ctx) -> None:
             ctx.check('C07-W3', f'{label}: no second/unpaired {norm(d.ast)}', gg.loc(d), w is None and w0 is None,
                       'task_done only after a dequeue', 'an extra task_done releases join() before its producer was picked up',
                       witness=render(gg, w or w0), construct=construct_key(key, 'extra task_done'))
-    real_gets = [bg for bg in r.blocking_get if not r.is_armed_get(bg)] + r.timed_get
+    real_gets = [bg for bg in r.blocking_get if not r.is_armed_get(bg)] + r.timed_get + r.nowait_gets
     pair_rule(G, real_gets, r.done, 'daemon', 'BUFFER.daemon')
     if r.drain is not None:
         gd = build(r.drain, p)
@@ -890,9 +901,15 @@ def c08(ctx: Ctx) -> None:
               G.loc(arm), bool(ok), 'the configured quiet period bounds a read of the queue', 'the quiet timer is not wait_for(queue.get(), self.timeout)',
               construct=construct_key('BUFFER.daemon', 'timer shape'))
     # D4
+    drains = r.drain_calls + r.nowait_gets
     for a in r.arm:
-        w = must_pass(G, [r.round_head], [a], r.drain_calls)
-        ctx.check('C08-D4', 'on every iteration the drain precedes arming the timer', G.loc(a), w is None and bool(r.drain_calls),
+        w = must_pass(G, [r.round_head], [a], drains)
+        # an inline drain loop must run until the queue is empty: after a successful non-blocking get the
+        # timer is armed only after another get attempt
+        for ng in r.nowait_gets:
+            ne_ = [e for e in G.succ[ng.id] if e.label != 'exc']
+            w = w or must_pass(G, [], [a], r.nowait_gets, start_edges=ne_)
+        ctx.check('C08-D4', 'on every iteration the drain precedes arming the timer', G.loc(a), w is None and bool(drains),
                   'everything already queued joins the same round', 'the timer can be armed without draining what is already queued',
                   witness=render(G, w), construct=construct_key('BUFFER.daemon', 'arm before drain'))
     for tg in r.timed_get:
@@ -904,7 +921,7 @@ def c08(ctx: Ctx) -> None:
     # D5: the single daemon survives a failing call (otherwise no later burst is ever delivered)
     ctx.rule('C08-D5', 'a failure of the wrapped call (Exception or CancelledError of something it awaited) never ends the daemon (= C03-S3)', 2)
     ctx.adopt(c03, {'C03-S3'}, 'C08-D5', 'the one background task dies: nothing submitted later is ever delivered')
-    for d in r.drain_calls:
+    for d in drains:
         ne = [e for e in G.succ[d.id] if e.label != 'exc']
 
         def empty_false(e: Edge) -> bool:
